@@ -1,1 +1,1 @@
-
+import Properties.RoundCore
